@@ -751,11 +751,11 @@ class Machine:
         fb = np.broadcast_to(np.asarray(mb.factor, dtype=float), (d,)) if d else np.zeros(0)
         if np.any(np.abs(fa - fb) > 1e-9 * np.abs(fb)):
             return "different:factor"
+        if ma.omin is not None and mb.omin is not None and (np.any(np.abs(ma.omin - mb.omin) > t) or np.any(np.abs(ma.omax - mb.omax) > t)):
+            return "different:original-minmax"
         if isinstance(ma.factor, np.ndarray) != isinstance(mb.factor, np.ndarray) or \
                 isinstance(a.obj.get_scaling_range()[0], np.ndarray) != isinstance(b.obj.get_scaling_range()[0], np.ndarray):
             return "borderline"      # scalar vs per-dimension value of equal size: the library calls that different
-        if ma.omin is not None and mb.omin is not None and (np.any(np.abs(ma.omin - mb.omin) > t) or np.any(np.abs(ma.omax - mb.omax) > t)):
-            return "different:original-minmax"
         exact = (np.array_equal(ra, rb) and np.array_equal(np.asarray(a.obj.get_scaling_factor(), dtype=float),
                                                              np.asarray(b.obj.get_scaling_factor(), dtype=float)))
         return "same" if exact else "borderline"
@@ -835,6 +835,20 @@ class Machine:
             untouched()
             return self.check_all("concatenate", targets=[a, b])
         untouched()
+        if a.m.scaled and a.m.n and b.m.n:
+            # all scaling attributes agree, but the two affine maps x -> f*x + c can still differ in c (e.g. two pieces
+            # that were rescaled to the same range separately): no single "original" exists for the product, so only its
+            # current rows are checked and it is not tracked any further
+            ca = a.m.cur[0] - a.m.factor * a.m.orig[0]
+            cb = b.m.cur[0] - b.m.factor * b.m.orig[0]
+            if np.any(np.abs(ca - cb) > max(a.m.tol(), b.m.tol()) * (1.0 + np.max(np.abs(np.atleast_1d(a.m.factor))))):
+                self.out.cls("concatenate-equal-attributes-different-shift-history:untracked")
+                X, y = obs_rows(np, res)
+                both = np.concatenate([a.m.cur, b.m.cur], axis=0)
+                dd = diff_entry(np, X, y, both, np.concatenate([a.m.lab, b.m.lab]), max(a.m.tol(), b.m.tol()))
+                if dd is not None:
+                    self.bad("data/%s/product-of-concatenate" % dd[0], dd[1])
+                return self.check_all("concatenate", targets=[a, b])
         # result = rows of a followed by rows of b (as a multiset), attributes of a
         d = a.m.cur.shape[1] if a.m.n else b.m.cur.shape[1]
         cur = np.concatenate([a.m.cur.reshape(a.m.n, d), b.m.cur.reshape(b.m.n, d)], axis=0)
